@@ -211,12 +211,12 @@ def run(ctx, eng):
            n > 0 and not bad, '; '.join(sorted(set(bad))) or
            'every normally returning path clears the buffer', node=fi.node)
     fi = eng.m.func(H + 'clear_outbound_data_buffer')
-    ok = False
+    ok = cm.Every()
     for p in cm.normal_paths(eng.I.run(fi)):
         ws = [e for e in p.events if e.kind == 'write' and
               e.attr == '_data_to_send']
-        ok = len(ws) == 1 and ws[0].value[0] == 'call' and \
-            ws[0].value[1] == 'bytearray' and ws[0].value[2] == ()
+        ok(len(ws) == 1 and ws[0].value[0] == 'call' and
+           ws[0].value[1] == 'bytearray' and ws[0].value[2] == ())
     ctx.ob('ORD.discard', fi.qual, 'buffer replaced by an empty one', ok,
            'self._data_to_send = bytearray()', node=fi.node)
     ctx.assume('events (as opposed to frames) reported on a closed '
